@@ -403,6 +403,15 @@ func lcCheck(c *core.Ctx, s lcScenario, judgeUndo bool) {
 		if op.Block != nil {
 			b := *op.Block
 			rec := w.PrepareBlock(b)
+			if len(rec.DelHashes) > 0 && (s.Tag+uint64(oi)*3)%5 == 2 {
+				// a block whose deletion proof arrives with a surplus trailing hash: every verifier
+				// accepts it (C05), so the client sees it in Update's stump and later in Undo too
+				// (added after seeded change C08h)
+				var junk Hash
+				junk[0], junk[1], junk[31] = 0xEE, byte(oi), 1
+				rec.Proof.Proof = append(cloneHashes(rec.Proof.Proof), junk)
+				c.Count("blocks_whose_proof_carries_a_surplus_hash", 1)
+			}
 			prevStump := u.Stump{Roots: cloneHashes(w.Stump.Roots), NumLeaves: w.Stump.NumLeaves}
 			snap := lcSnap{before: rec.Before, rec: rec, stump: prevStump, ctr: w.Ctr}
 			if !w.ApplyToStump(rec, func(site, clause, trigger, detail string) {
